@@ -322,6 +322,25 @@ def event_failures(n, seed, limit=3):
                 same = lambda a, b: a.dtype == b.dtype and a.unit == b.unit and np.array_equal(a.values, b.values)   # (alignment flag and the renamed dimension aside)
                 if prob is None and 'tof' in out.coords and not same(out.coords['tof'], before.coords['tof']):
                     prob = 'the bin-edge coordinate of the origin that is kept on the result is not the one supplied'
+        if prob is None and npix > 1:
+            # one pixel taken out of the data (a view: its bins are not the whole event buffer, its geometry is scalar) converts to
+            # what the same pixel is in the converted whole
+            k_ = int(rng.integers(0, npix))
+            try:
+                with warnings.catch_warnings():
+                    warnings.simplefilter('ignore')
+                    part = conv.convert(da['spectrum', k_], origin='tof', target=target, scatter=True)
+                whole_k = out['spectrum', k_]
+                a_, b_ = part.bins.constituents, whole_k.copy().bins.constituents
+                pc = part.copy().bins.constituents
+                if not (np.array_equal(pc['begin'].values, b_['begin'].values) and np.array_equal(pc['end'].values, b_['end'].values)
+                        and np.array_equal(pc['data'].values, b_['data'].values)
+                        and np.allclose(pc['data'].coords[target].values, b_['data'].coords[target].values, rtol=1e-12 if dt != 'float32' else 1e-5, atol=0, equal_nan=True)):
+                    prob = f'pixel {k_} converted on its own differs from the same pixel of the converted whole (bin membership or event values)'
+            except sc.DTypeError:
+                pass
+            except Exception as ex:  # noqa: BLE001
+                prob = f'converting pixel {k_} on its own raised {type(ex).__name__}: {ex}'[:300]
         if prob:
             fails.append({**desc, 'problem': prob})
             if len(fails) >= limit:
